@@ -59,6 +59,7 @@ var mutants = []mutant{
 	{"C16-cut-centre-off-by-one", "C16", "ansi/ansi.go", "return strings.Join(strings.Split(centered, \"\\n\")[:height], \"\\n\")", "return strings.Join(strings.Split(centered, \"\\n\")[:height-1], \"\\n\")", "C16.R1"},
 	{"C16-status-line-appended", "C16", "ansi/ansi.go", "return original[:lastIndex] + \"\\n\" + replacement", "return original + \"\\n\" + replacement", "C16.R2"},
 	{"C16-frame-for-other-height", "C16", "ui/ui.go", "output := ansi.CenterVertically(top, center, bottom, uint(s.height))", "output := ansi.CenterVertically(top, center, bottom, uint(s.height-1))", "C16.R3"},
+	{"C16-frame-written-after-unlock", "C16", "ui/ui.go", "\t\t\tpage.loadingUp = false\n\t\t\ts.output(s.view())\n\t\t\ts.m.Unlock()", "\t\t\tpage.loadingUp = false\n\t\t\tframe := s.view()\n\t\t\ts.m.Unlock()\n\t\t\ts.output(frame)", "C16.R4"},
 	{"C16-raw-terminal-write", "C16", "ui/ui.go", "\ts.mode = loading\n\ts.buffer = \"\"\n\ts.output(s.view())", "\ts.mode = loading\n\ts.buffer = \"\"\n\ts.output(\"Loading\\n\")", "C16.R4"},
 	// C01
 	{"C01-scrub-getstring", "C01", "object/object.go", "value = ansi.Scrub(value)", "value = ansi.Squash(value)", "C01.R1"},
